@@ -1143,7 +1143,7 @@ func ruleEngine(c *Ctx) {
 	}
 	c.R.Check(okFirst, "yae.Expr.makeSureInit", "first statement is `if e.init { return }`", msi.Pos(), "initialisation runs once", "initialisation is not guarded by the init flag")
 	last := msi.Body.List[len(msi.Body.List)-1]
-	okLast := sx(last) == "(AssignStmt Lhs:[(SelectorExpr e Sel:init)] Tok:= Rhs:[true])"
+	okLast := c.sxN(msi, last) == "(AssignStmt Lhs:[(SelectorExpr $r Sel:init)] Tok:= Rhs:[true])"
 	c.R.Check(okLast, "yae.Expr.makeSureInit", "`e.init = true` is the last statement", msi.Pos(), "flag set after the tables are complete", "the init flag is set before initialisation finished (or never)")
 	// writers of Expr fields
 	pk := c.Mod["yae"]
